@@ -10,3 +10,6 @@ cd "$VERIF/engine" && cp /repo/go.sum go.sum
 go build -o "$VERIF/.cache/bin/mkoverlay" ./cmd/mkoverlay || exit 2
 "$VERIF/.cache/bin/mkoverlay" /repo "$VERIF" "$VERIF/.cache/overlay" > "$VERIF/.cache/overlay/log" 2>&1 || { cat "$VERIF/.cache/overlay/log"; exit 2; }
 go build -tags verifov -overlay "$VERIF/.cache/overlay/overlay.json" -o "$VERIF/.cache/bin/vcheck-ov" ./cmd/vcheck || exit 2
+if [ "${VERIF_RACE:-1}" = 1 ]; then
+  CGO_ENABLED=1 go build -race -tags verifov -overlay "$VERIF/.cache/overlay/overlay.json" -o "$VERIF/.cache/bin/vrace" ./cmd/vrace || exit 2
+fi
